@@ -4,6 +4,9 @@ import (
 	"fmt"
 	"time"
 
+	sdk "github.com/pokt-network/pocket-core/types"
+	nodesTypes "github.com/pokt-network/pocket-core/x/nodes/types"
+
 	"verif/internal/ev"
 )
 
@@ -92,6 +95,8 @@ type chainCheckDef struct {
 	menu  func() []BlockSpec
 	depth [2]int // quick, thorough
 	rule  string
+	// extra runs after the chain search (input-shard evaluators on the real keepers)
+	extra func(c *ev.Ctx)
 }
 
 func registerChainCheck(d chainCheckDef) {
@@ -113,9 +118,12 @@ func registerChainCheck(d chainCheckDef) {
 				done += chainDone(c, cfg, st)
 			}
 			c.BoundDone = done
+			if d.extra != nil {
+				d.extra(c)
+			}
 			getPool().Close()
 		},
-		Replay: chainReplayFn,
+		Replay: evalOrChainReplayFn,
 	})
 }
 
@@ -132,9 +140,61 @@ func init() {
 	registerChainCheck(chainCheckDef{id: "C17", name: "supply", want: []string{"supply"}, depth: [2]int{3, 4},
 		menu: func() []BlockSpec { return concatMenus(menuSends()[:4], menuNodes(), menuApps(), menuGov(), menuEnv()) },
 		rule: "Invariant: recorded total supply == sum of the balances of every account incl. module accounts, and every balance is canonical and non-negative, in every reachable state."})
+	// challenge / replay burns (reached on chain only through proofs of challenges or replayed relays): evaluated on
+	// the real keeper for burns below, at and above the node's stake
+	chainInvariants["c19:burns"] = func(r *replica, res *JobResult) {
+		acc := newEvalAcc(res)
+		defer acc.finish()
+		ak, nk, _, _, _ := r.app.VerifKeepers()
+		base := r.ctxNow()
+		for _, node := range []string{"N1", "N2"} {
+			for _, exp := range []int{100, 0} {
+				for _, ch := range []int64{1, 2, 500000, 999999, 1000000, 1000001, 1499999, 1500000, 1500001, 2500000, 2500001, 1000000000} {
+					ctx, _ := base.CacheContext()
+					setStakeWeightParams(ctx, nk, swParams{Floor: 1000000, Ceiling: 2000000, WM: "1", Exp: exp, RTTM: 1})
+					np := nk.GetParams(ctx)
+					np.StakeMinimum = 1000000
+					nk.SetParams(ctx, np)
+					v, _ := nk.GetValidator(ctx, caddr(node))
+					before := totalSupply(ctx, ak)
+					ok, pan := withWatchdog(30*time.Second, func() { nk.BurnForChallenge(ctx, sdk.NewInt(ch), caddr(node)) })
+					acc.evals++
+					desc := fmt.Sprintf("burn for %d challenges on %s (stake %s, exponent %d/100)", ch, node, v.StakedTokens, exp)
+					if !ok || pan != nil {
+						acc.viol("burns/panics-or-hangs", desc+fmt.Sprintf(": %v", pan))
+						continue
+					}
+					pool := upokt(ak.GetModuleAccount(ctx, nodesTypes.StakedPoolName).GetCoins())
+					sum := sdk.ZeroInt()
+					for _, x := range nk.GetAllValidators(ctx) {
+						if x.Status == sdk.Staked || x.Status == sdk.Unstaking {
+							sum = sum.Add(x.StakedTokens)
+						}
+					}
+					burned := before.Sub(totalSupply(ctx, ak))
+					if !pool.Equal(sum) {
+						acc.viol("burns/pool-not-sum-of-stakes", desc+fmt.Sprintf(": pool %s, staked+unstaking nodes %s, supply decreased by %s", pool, sum, burned))
+					}
+					if burned.GT(v.StakedTokens) {
+						acc.viol("burns/more-than-stake", desc+fmt.Sprintf(": %s burned", burned))
+					}
+					if burned.Equal(v.StakedTokens) {
+						acc.outcome("burn-whole-stake")
+					} else if burned.IsZero() {
+						acc.outcome("burn-zero")
+					} else {
+						acc.outcome("burn-part")
+					}
+				}
+			}
+		}
+	}
 	registerChainCheck(chainCheckDef{id: "C19", name: "nodepool", want: []string{"nodepool"}, depth: [2]int{3, 5},
+		extra: func(c *ev.Ctx) {
+			runEvalShards(c, "burns", defaultEnv(), nil, "c19:burns", []map[string]string{{"shard": "0"}})
+		},
 		menu: func() []BlockSpec { return concatMenus(menuNodes(), menuEnv(), menuSends()[4:5]) },
-		rule: "Invariant: balance of the node staking pool == sum of staked tokens of all nodes that are staked or unstaking, in every reachable state."})
+		rule: "Invariant: balance of the node staking pool == sum of staked tokens of all nodes that are staked or unstaking, in every reachable state; the same after challenge burns of 12 sizes (below, at and above the stake and the pool) evaluated on the real keeper."})
 	registerChainCheck(chainCheckDef{id: "C20", name: "apppool", want: []string{"apppool"}, depth: [2]int{4, 5},
 		menu: func() []BlockSpec {
 			return concatMenus(menuApps(), menuEnv()[:1], menuEnv()[4:5], []BlockSpec{blk(tx("send", "A2", "to", "module:application_staked_tokens_pool", "amount", "3"))})
